@@ -14,7 +14,7 @@
     IEEE-754 model [F64.scale_f64] that is compared with Go on every case).
     Only statements here, each closed by [exact]; [Print Assumptions] beneath. *)
 From Coq Require Import ZArith List Bool Lia.
-From CM Require Import Gen.Consts Renewal.Model Renewal.Proofs.
+From CM Require Import Gen.Consts Renewal.Model Renewal.F64 Renewal.Proofs Renewal.F64Proofs.
 Import ListNotations.
 Open Scope Z_scope.
 
@@ -154,6 +154,18 @@ Theorem C04_spec_ok_of_model : forall scale, scale_spec scale ->
   spec_ok i t0 t1 (decide scale i rnd now) = true.
 Proof. exact spec_sound. Qed.
 Print Assumptions C04_spec_ok_of_model.
+
+(** ** the hypothesis discharged for IEEE-754: the exact integer model of
+    [time.Duration(float64(L) * float64(n/d))] (F64.v; equal to Go's result on every case of every
+    run) is within the tolerance, so the statements above hold of [decide scale_f64] outright *)
+Theorem C04_float64_product_within_tolerance : scale_spec scale_f64.
+Proof. exact scale_f64_ok. Qed.
+Print Assumptions C04_float64_product_within_tolerance.
+
+Theorem C04_spec_ok_of_float64_model : forall i rnd t0 now t1, admissible i rnd -> t0 <= now <= t1 ->
+  spec_ok i t0 t1 (decide scale_f64 i rnd now) = true.
+Proof. exact (spec_sound scale_f64 scale_f64_ok). Qed.
+Print Assumptions C04_spec_ok_of_float64_model.
 
 (** the stored-certificate variant used under the lock *)
 Theorem C04_managed_variant : forall scale i rnd now,
